@@ -98,7 +98,9 @@ def run_check(pid, tier, base_seed, jobs, mod_meta):
 
 
 def _run_check(pid, tier, base_seed, jobs, meta, scratch, t0):
-    budget = meta["budget"][tier]
+    budget = dict(meta["budget"][tier])
+    if os.environ.get("VERIF_BUDGET_SECONDS"):      # for smoke-testing a tier; not used by MANIFEST commands
+        budget["seconds"] = int(os.environ["VERIF_BUDGET_SECONDS"])
     procs = []
     for w in range(jobs):
         wdir = os.path.join(scratch, f"w{w}")
